@@ -19,16 +19,29 @@ using namespace vfh;
 namespace rml { namespace internal { class TLSData; } } void doThreadShutdownNotification(rml::internal::TLSData*, bool);   // what the pthread key destructor runs at thread exit
 static bool armed = false; static int raw_calls = 0, raw_failed = 0;
 static int nulls = 0; static bool allow_null = false; static char fixed_buf[1 << 23];
+// persist: once a raw request has been refused every later one is refused too (memory stays exhausted) - one choice per request until then
+static bool persist = false, failing = false, pool_raw_faults = true;
+static bool refuse() { if (failing) return true; if (vf_choose(2)) { if (persist) failing = true; return true; } return false; }
 extern "C" void* mmap(void* addr, size_t len, int prot, int flags, int fd, off_t off) {
-    if (armed) { raw_calls++; if (vf_choose(2)) { raw_failed++; errno = ENOMEM; return MAP_FAILED; } }
+    if (armed) { raw_calls++; if (refuse()) { raw_failed++; errno = ENOMEM; return MAP_FAILED; } }
     return (void*)syscall(SYS_mmap, addr, len, prot, flags, fd, off); }
 struct Region { char* p; size_t n; bool live; };
 struct PoolEnv { std::vector<Region> regions; int calls = 0; };
 static PoolEnv env[3];
-static void* raw_alloc(std::intptr_t id, std::size_t& bytes) { PoolEnv& e = env[id]; e.calls++; if (armed) { raw_calls++; if (vf_choose(2)) { raw_failed++; return nullptr; } }
+static void* raw_alloc(std::intptr_t id, std::size_t& bytes) { PoolEnv& e = env[id]; e.calls++; if (armed && pool_raw_faults) { raw_calls++; if (refuse()) { raw_failed++; return nullptr; } }
     if (allow_null) { bytes = sizeof(fixed_buf); e.regions.push_back({fixed_buf, bytes, true}); return fixed_buf; }   // fixed pool: one buffer, handed out once
-    char* p = (char*)aligned_alloc(4096, (bytes + 4095) & ~(size_t)4095); e.regions.push_back({p, bytes, true}); return p; }
-static int raw_free(std::intptr_t id, void* p, std::size_t) { for (auto& r : env[id].regions) if (r.p == p) { if (!r.live) vf_fail("pool %ld returned raw region %p twice", (long)id, p); r.live = false; return 0; } vf_fail("pool %ld returned a raw region it never obtained", (long)id); return 1; }
+    // page-aligned private mappings of their own, like a real user of memory pools would supply (so that any mmap-family call the
+    // allocator makes on them would work)
+    char* p = (char*)syscall(SYS_mmap, nullptr, (bytes + 4095) & ~(size_t)4095, PROT_READ | PROT_WRITE, MAP_PRIVATE | MAP_ANONYMOUS, -1, 0); if (p == MAP_FAILED) return nullptr;
+    e.regions.push_back({p, bytes, true}); return p; }
+// the raw memory of a user pool belongs to the user: the allocator must never remap / unmap it behind the callbacks' back
+extern "C" void* mremap(void* old_addr, size_t old_len, size_t new_len, int flags, ...) {
+    for (int id = 1; id < 3; id++) for (auto& r : env[id].regions) if (r.live && (char*)old_addr >= r.p && (char*)old_addr < r.p + r.n) vf_fail("tbbmalloc called mremap(%p, %zu -> %zu) on raw memory of user pool %d", old_addr, old_len, new_len, id);
+    return (void*)syscall(SYS_mremap, old_addr, old_len, new_len, flags); }
+extern "C" int munmap(void* addr, size_t len) {
+    for (int id = 1; id < 3; id++) for (auto& r : env[id].regions) if (r.live && (char*)addr < r.p + r.n && (char*)addr + len > r.p) vf_fail("tbbmalloc called munmap(%p, %zu) on raw memory of user pool %d", addr, len, id);
+    return (int)syscall(SYS_munmap, addr, len); }
+static int raw_free(std::intptr_t id, void* p, std::size_t n) { for (auto& r : env[id].regions) if (r.p == p) { if (!r.live) vf_fail("pool %ld returned raw region %p twice", (long)id, p); if (n != r.n) vf_fail("pool %ld returned raw region %p with size %zu, it was obtained with size %zu", (long)id, p, n, r.n); r.live = false; if (r.p != fixed_buf) syscall(SYS_munmap, r.p, (r.n + 4095) & ~(size_t)4095); return 0; } vf_fail("pool %ld returned a raw region it never obtained", (long)id); return 1; }
 static bool inside(int id, void* p, size_t n) { for (auto& r : env[id].regions) if (r.live && (char*)p >= r.p && (char*)p + n <= r.p + r.n) return true; return false; }
 static void note(ShadowHeap& h, void* p, size_t n, size_t al, const char* what) { if (!p) { nulls++; if (!raw_failed && !allow_null) vf_fail("%s(%zu) failed although no raw memory request was refused", what, n); return; } h.add(p, n, al, what); }
 
@@ -49,6 +62,16 @@ static void history_pool(ShadowHeap& h, rml::MemoryPool* pool, int id) {
     for (int i = 0; i < 3; i++) { void* p = rml::pool_malloc(pool, 9000); if (p && !inside(id, p, 9000)) vf_fail("pool block outside its raw memory"); note(h, p, 9000, 16, "pool_malloc"); }
     { void* p = rml::pool_malloc(pool, 2000000); if (p && !inside(id, p, 2000000)) vf_fail("pool block outside its raw memory"); note(h, p, 2000000, 16, "pool_malloc"); }
     { void* p = rml::pool_aligned_malloc(pool, 700, 1024); if (p && !inside(id, p, 700)) vf_fail("pool block outside its raw memory"); note(h, p, 700, 1024, "pool_aligned_malloc"); }
+    // pool_realloc: growing and shrinking small, large (>= 1 MB: the default pool would remap such a block in place) and huge blocks
+    for (size_t from : {(size_t)300, (size_t)9000, (size_t)1500000, (size_t)2000000}) for (size_t to : {from * 3 + 4096, from / 2}) {
+        unsigned char* p = (unsigned char*)rml::pool_malloc(pool, from); if (!p) { nulls++; if (!raw_failed && !allow_null) vf_fail("pool_malloc(%zu) failed although no raw request was refused", from); continue; }
+        if (!inside(id, p, from)) vf_fail("pool block outside its raw memory"); ShadowHeap::fill(p, from, 0x77);
+        unsigned char* q = (unsigned char*)rml::pool_realloc(pool, p, to);
+        if (!q) { nulls++; if (!raw_failed && !allow_null) vf_fail("pool_realloc(%zu -> %zu) failed although no raw request was refused", from, to); if (!ShadowHeap::intact(p, from, 0x77)) vf_fail("failed pool_realloc damaged the block"); note(h, p, from, 16, "pool_malloc"); continue; }
+        if (!inside(id, q, to)) vf_fail("pool_realloc(%zu -> %zu) returned a block outside the pool's raw memory", from, to);
+        if (!ShadowHeap::intact(q, from, 0x77, std::min(from, to))) vf_fail("pool_realloc(%zu -> %zu) lost data", from, to);
+        if (rml::pool_identify(q) != pool) vf_fail("pool_identify names the wrong pool after pool_realloc");
+        note(h, q, to, 16, "pool_realloc"); }
     h.check_all("pool history");
     for (auto& kv : h.live) if (inside(id, kv.first, 1) && rml::pool_identify(kv.first) != pool) vf_fail("pool_identify names the wrong pool");
 }
@@ -94,6 +117,32 @@ static void scenario() {
         if (!rml::pool_destroy(a)) vf_fail("pool_destroy(A) failed"); for (auto& r : env[1].regions) if (r.live) vf_fail("destroy(A) kept a region"); for (size_t i = 0; i < blive.size(); i++) if (blive[i] && !env[2].regions[i].live) vf_fail("destroying pool A returned memory of pool B");
         hb.check_all("B after destroy(A)"); if (!rml::pool_destroy(b)) vf_fail("pool_destroy(B) failed"); for (auto& r : env[2].regions) if (r.live) vf_fail("destroy(B) kept a region");
         vf_outcome("raw=%d failed=%d", raw_calls, raw_failed); }
+    else if (streq(k, "backref") || streq(k, "poolbackref")) {
+        // n live large objects (each needs a back-reference slot: the 4 initial leaves hold about 8160) so that the back-reference table
+        // has to be extended inside the window; from an explorer-chosen raw request on, every request of the DEFAULT pool is refused
+        // (poolbackref: the objects come from a memory pool whose own raw callback always succeeds - the table lives in the default pool)
+        bool inpool = streq(k, "poolbackref"); int n = (int)vf_param_int("n", 8400); size_t sz = (size_t)vf_param_int("size", 9000);
+        rml::MemPoolPolicy pol(raw_alloc, raw_free); rml::MemoryPool* pool = nullptr; if (inpool && rml::pool_create_v1(1, &pol, &pool) != rml::POOL_OK) vf_fail("pool_create failed");
+        void* warm = scalable_malloc(16); scalable_free(warm);
+        auto alloc = [&]() { return inpool ? rml::pool_malloc(pool, sz) : scalable_malloc(sz); };
+        std::vector<unsigned char*> v; v.reserve(n + 8); int after = 0;
+        persist = true; pool_raw_faults = false; vf_window(1); armed = true; vf_liveness(1);   // an allocation call that never returns is a violation
+        std::vector<void*> drained[5]; static const size_t DS[5] = {1u << 20, 60000, 8000, 1000, 48};
+        if (inpool) {   // the default pool is out of memory from the start: drain what it still caches, then give back 0-2 chunks of 60000 bytes by choice
+            failing = true; for (int d = 0; d < 5; d++) for (int i = 0; i < 200000; i++) { void* p = scalable_malloc(DS[d]); if (!p) break; drained[d].push_back(p); }
+            int back = vf_choose(3); for (int i = 0; i < back && !drained[1].empty(); i++) { scalable_free(drained[1].back()); drained[1].pop_back(); } raw_failed++; }
+        for (int i = 0; i < n && after < 3; i++) { unsigned char* p = (unsigned char*)alloc();
+            if (!p) { nulls++; after++; if (!raw_failed) vf_fail("allocation %d of %zu bytes failed although no raw memory request was refused", i, sz); continue; }
+            if ((uintptr_t)p & 15) vf_fail("block %p not aligned", (void*)p); if (inpool && !inside(1, p, sz)) vf_fail("pool block outside the pool's raw memory");
+            memcpy(p, &i, sizeof i); memcpy(p + sz - sizeof i, &i, sizeof i); v.push_back(p); }
+        armed = false; vf_liveness(0); vf_window(0); failing = false;
+        { unsigned char* z = (unsigned char*)alloc(); if (!z) vf_fail("allocation still fails after raw memory became available again"); int m = -1; memcpy(z, &m, sizeof m); memcpy(z + sz - sizeof m, &m, sizeof m); v.push_back(z); }
+        std::vector<unsigned char*> sorted = v; std::sort(sorted.begin(), sorted.end()); for (size_t i = 1; i < sorted.size(); i++) if (sorted[i - 1] + sz > sorted[i]) vf_fail("blocks %p and %p overlap", (void*)sorted[i - 1], (void*)sorted[i]);
+        for (size_t i = 0; i + 1 < v.size(); i++) { int a, b; memcpy(&a, v[i], sizeof a); memcpy(&b, v[i] + sz - sizeof b, sizeof b); if (a != b) vf_fail("contents of live block %zu were modified", i); }
+        for (unsigned char* p : v) { if (inpool) rml::pool_free(pool, p); else scalable_free(p); }
+        for (int d = 0; d < 5; d++) for (void* p : drained[d]) scalable_free(p);
+        if (inpool) { if (!rml::pool_destroy(pool)) vf_fail("pool_destroy failed"); for (auto& r : env[1].regions) if (r.live) vf_fail("pool_destroy kept raw region %p", (void*)r.p); }
+        vf_outcome("raw=%d failed=%d nulls=%d live=%zu", raw_calls, raw_failed, nulls, v.size()); }
     else if (streq(k, "extreme")) { const size_t M = ~(size_t)0; int n = 0;
         for (size_t s : {M, M - 1, M - 7, M - 15, M - 63, M - 4095, M / 2 + 1, M - (1ul << 21), (size_t)1 << 63, ((size_t)1 << 63) - 1, (size_t)1 << 62}) {
             void* p = scalable_malloc(s); if (p) vf_fail("scalable_malloc(%zu) returned a block", s); n++;
